@@ -43,10 +43,199 @@ CORPUS = [
 ]
 
 
-def package_source(pkg, decls, name=None, extra_imports=()):
+# ------------------------------------------------------------------------------------------------ C15's own shapes
+# (added to the universe of vlib/typegen.py; every name carries the prefix z15 / Z15 / w15 / W15)
+
+PRELUDE_C15 = """
+// ---- C15: non-exported names that reach a struct only through EMBEDDING (value, pointer, interface, alias)
+type z15base struct{ id int }
+type z15count int
+type z15ab = z15base
+type Z15AB = z15base
+type z15ub = T
+type z15str interface{ String() string }
+type Z15SrvV struct {
+	z15base
+	Addr string
+}
+type Z15SrvP struct {
+	*z15base
+	Addr string
+}
+type Z15SrvE struct {
+	error
+	Code int
+}
+type Z15SrvA struct {
+	z15ab
+	X int
+}
+type Z15SrvC struct {
+	z15count
+	Name string
+}
+type Z15SrvI struct {
+	z15str
+	Name string
+}
+type Z15Open struct {
+	T
+	Addr string
+}
+type Z15Mixed struct {
+	z15base
+	Addr string
+	n    int
+}
+"""
+
+NAMED_STRUCT_SHAPES = ["Z15SrvV", "Z15SrvP", "Z15SrvE", "Z15SrvA", "Z15SrvC", "Z15SrvI", "Z15Open", "Z15Mixed"]
+
+# defined types over every kind that can carry methods: (underlying, a value, an int computed from the receiver `v`)
+DEF_KINDS = [
+    ("chan int", "make(chan int, 3)", "cap(v)"),
+    ("chan<- string", "make(chan string, 4)", "cap(v)"),
+    ("<-chan *T", "make(chan *T, 5)", "cap(v)"),
+    ("[]int", "[]int{7, 8}", "len(v)*10 + v[0]"),
+    ("map[string]int", 'map[string]int{"a": 1, "b": 2}', "len(v)"),
+    ("func(int) int", "func(x int) int { return x + 40 }", "v(2)"),
+    ("[2]int", "[2]int{4, 5}", "v[0]*10 + v[1]"),
+    # stored IN the interface data word (directIfaceType): one-element arrays / one-field structs of pointer-shaped types
+    ("[1]*z15node", "[1]*z15node{z15n}", "v[0].id"),
+    ("[1]chan int", "[1]chan int{make(chan int, 6)}", "cap(v[0])"),
+    ("[1]map[string]int", '[1]map[string]int{{"a": 1}}', "len(v[0])"),
+    ("[1]unsafe.Pointer", "[1]unsafe.Pointer{unsafe.Pointer(z15n)}", "(*z15node)(v[0]).id"),
+    ("[1][1]*z15node", "[1][1]*z15node{{z15n}}", "v[0][0].id"),
+    ("[1]struct{ p *z15node }", "[1]struct{ p *z15node }{{z15n}}", "v[0].p.id"),
+    ("struct{ p *z15node }", "struct{ p *z15node }{z15n}", "v.p.id"),
+    ("struct{ a [1]*z15node }", "struct{ a [1]*z15node }{[1]*z15node{z15n}}", "v.a[0].id"),
+    ("struct{ c chan int }", "struct{ c chan int }{make(chan int, 9)}", "cap(v.c)"),
+    ("struct{ u unsafe.Pointer }", "struct{ u unsafe.Pointer }{unsafe.Pointer(z15n)}", "(*z15node)(v.u).id"),
+    ("struct{ m map[string]int }", 'struct{ m map[string]int }{map[string]int{"x": 1, "y": 2, "z": 3}}', "len(v.m)"),
+    # boxed
+    ("[1]func() int", "[1]func() int{func() int { return 33 }}", "v[0]()"),
+    ("string", '"hello"', "len(v)"),
+    ("float64", "6.5", "int(v * 2)"),
+    ("int", "21", "int(v)"),
+    ("uintptr", "22", "int(v)"),
+    ("bool", "true", "z15b2i(bool(v))"),
+    ("complex128", "complex(3, 4)", "int(real(v)) + int(imag(v))"),
+    ("struct{ A, B int8 }", "struct{ A, B int8 }{2, 6}", "int(v.A)*10 + int(v.B)"),
+    ("[2]*z15node", "[2]*z15node{z15n, z15n.next}", "v[0].id*10 + v[1].id"),
+    ("[0]*z15node", "[0]*z15node{}", "len(v) + 70"),
+    ("struct{ _ struct{}; p *z15node }", "struct{ _ struct{}; p *z15node }{p: z15n}", "v.p.id"),
+    ("[1]int", "[1]int{19}", "v[0]"),
+]
+# method sets: 0 none, 1 one value-receiver method, 2 one pointer-receiver method, 3 value + non-exported value + pointer
+DEF_MSETS = [0, 1, 2, 3]
+
+
+def def_name(k, m):
+    return "Z15D%d_%d" % (k, m)
+
+
+def main_shapes(witness):
+    """-> Go source for package main only: the defined types, their methods and z15Run() that calls them through interfaces"""
+    out = ["""
+// ---- C15: defined types of every kind with methods; values are converted to interfaces and their methods called
+type z15node struct {
+	next *z15node
+	id   int
+}
+
+var z15n = &z15node{&z15node{nil, 8}, 7}
+
+type z15IDer interface{ ID() int }
+type z15Closer interface{ Close() }
+
+func z15b2i(b bool) int {
+	if b {
+		return 1
+	}
+	return 0
+}
+"""]
+    run = []
+    for k, (under, val, idx) in enumerate(DEF_KINDS):
+        for m in DEF_MSETS:
+            nm = def_name(k, m)
+            out.append("type %s %s" % (nm, under))
+            if m in (1, 3):
+                out.append("func (v %s) ID() int { return %s }" % (nm, idx))
+            if m == 3:
+                out.append("func (v %s) k() int { return (%s) + 1000 }" % (nm, idx))
+                out.append("func (p *%s) Ptr() int { v := *p; return (%s) + 2000 }" % (nm, idx))
+            if m == 2:
+                out.append("func (p *%s) Set() int { v := *p; return (%s) + 3000 }" % (nm, idx))
+            body = ["\t{", "\t\tv := %s(%s)" % (nm, val), "\t\tvar a any = v"]
+            if m in (1, 3):
+                body += ["\t\tvar i z15IDer = v", '\t\tprintln("e2e %s static", i.ID())' % nm,
+                         "\t\tj, ok := a.(z15IDer)", '\t\tprintln("e2e %s assert", ok)' % nm,
+                         "\t\tif ok {", '\t\t\tprintln("e2e %s dynamic", j.ID())' % nm, "\t\t}",
+                         "\t\tf := i.ID", '\t\tprintln("e2e %s methodvalue", f())' % nm,
+                         "\t\tswitch x := a.(type) {", "\t\tcase z15Closer:", '\t\t\tprintln("e2e %s switch closer", x != nil)' % nm,
+                         "\t\tcase z15IDer:", '\t\t\tprintln("e2e %s switch", x.ID())' % nm, "\t\tdefault:", '\t\t\tprintln("e2e %s switch none")' % nm, "\t\t}"]
+            else:
+                body += ["\t\t_, ok := a.(z15IDer)", '\t\tprintln("e2e %s assert", ok)' % nm]
+            if m == 3:
+                body += ["\t\tkk, ok2 := a.(interface{ k() int })", '\t\tprintln("e2e %s assert-k", ok2)' % nm, "\t\tif ok2 {", '\t\t\tprintln("e2e %s k", kk.k())' % nm, "\t\t}",
+                         "\t\t_, ok3 := a.(interface{ Ptr() int })", '\t\tprintln("e2e %s value-has-Ptr", ok3)' % nm,
+                         "\t\tvar pa any = &v", "\t\tpp, ok4 := pa.(interface{ Ptr() int })", '\t\tprintln("e2e %s assert-ptr", ok4)' % nm,
+                         "\t\tif ok4 {", '\t\t\tprintln("e2e %s Ptr", pp.Ptr())' % nm, "\t\t}",
+                         "\t\tpi, ok5 := pa.(z15IDer)", '\t\tprintln("e2e %s ptr-assert", ok5)' % nm, "\t\tif ok5 {", '\t\t\tprintln("e2e %s ptr-ID", pi.ID())' % nm, "\t\t}"]
+            if m == 2:
+                body += ["\t\tvar pa any = &v", "\t\tpp, ok4 := pa.(interface{ Set() int })", '\t\tprintln("e2e %s assert-ptr", ok4)' % nm,
+                         "\t\tif ok4 {", '\t\t\tprintln("e2e %s Set", pp.Set())' % nm, "\t\t}"]
+            body.append("\t}")
+            run.append((k, m, "\n".join(body)))
+    out += witness["decls"]
+    # the boxed kinds and the witnesses first; a wrong receiver word of the direct kinds may make the program die
+    order = sorted(run, key=lambda r: (0 if r[0] >= 18 else 1 if r[0] < 7 else 2, r[0], r[1]))
+    out.append("\nfunc z15Run() {\n" + "\n".join("\t" + st for st in witness["e2e"]) + "\n" + "\n".join(r[2] for r in order) + "\n}\n")
+    return "\n".join(out)
+
+
+def struct_shapes(rng):
+    """struct types whose non-exported fields are (only / also) EMBEDDED ones, systematically: every embedded non-exported
+    name x position x presence of an ordinary non-exported field x presence of an exported embedded field, and pairs"""
+    emb_unexp = ["z15base", "*z15base", "z15count", "error", "z15ab", "*z15ab", "z15ub", "*z15ub", "z15str", "int", "string", "any"]
+    emb_exp = ["T", "*p.T", "p.I", "Z15AB", "*Z15AB", "p.Z15SrvV", "q.E", "*q.Z15SrvE"]
+    ord_exp = ["A int", "Name string", "B *p.T", "C []q.U", "Z9 map[string]int", "Addr string"]
+    out = []
+
+    def fname(e):
+        return e.lstrip("*").split(".")[-1]
+    for e in emb_unexp:
+        x1, x2 = rng.choice(ord_exp), rng.choice(ord_exp)
+        while x2.split()[0] == x1.split()[0]:
+            x2 = rng.choice(ord_exp)
+        ee = rng.choice([x for x in emb_exp if fname(x) != fname(e)])
+        out += ["struct{ %s }" % e, "struct{ %s; %s }" % (e, x1), "struct{ %s; %s }" % (x1, e), "struct{ %s; %s; %s }" % (x1, e, x2),
+                "struct{ %s; %s; n int }" % (e, x1), "struct{ n int; %s; %s }" % (x1, e), "struct{ %s; %s; %s }" % (ee, e, x1),
+                'struct{ %s "k"; %s `json:"a"` }' % (e, x1), "struct{ _ int; %s; %s }" % (e, x1)]
+    for _ in range(12):
+        a, b = rng.sample(emb_unexp, 2)
+        if fname(a) == fname(b):
+            continue
+        out.append("struct{ %s; %s; %s }" % (a, b, rng.choice(ord_exp)))
+    for e in emb_exp:
+        out += ["struct{ %s }" % e, "struct{ %s; %s }" % (e, rng.choice(ord_exp))]
+    seen, res = set(), []
+    for t in out:
+        if t not in seen:
+            seen.add(t)
+            res.append(t)
+    return res
+
+
+def load_witnesses():
+    return json.load(open(os.path.join(VERIF, "corpus", "C15", "witnesses.json")))
+
+
+def package_source(pkg, decls, name=None, extra_imports=(), main_extra=""):
     imports = ['import "unsafe"'] + ['import %s "%s/%s"' % (i, tg.MOD, i) for i in {"p": [], "q": ["p"], "r": ["p", "q"]}[pkg]] + ['import "%s"' % i for i in extra_imports]
     uses = ["var _ unsafe.Pointer", "const pkgID = %d" % (["p", "q", "r"].index(pkg) + 1)] + ["var _ %s.T" % i for i in {"p": [], "q": ["p"], "r": ["p", "q"]}[pkg]]
-    return "package %s\n\n%s\n\n%s\n%s\n%s\n" % (name or pkg, "\n".join(imports), "\n".join(uses), tg.PRELUDE_COMMON, "\n".join(decls))
+    return "package %s\n\n%s\n\n%s\n%s\n%s\n%s\n%s\n" % (name or pkg, "\n".join(imports), "\n".join(uses), tg.PRELUDE_COMMON, PRELUDE_C15, main_extra, "\n".join(decls))
 
 
 ORACLE_MAIN = r'''
@@ -97,10 +286,17 @@ def embeds_generic(t):
     return any(embeds_generic(x) for x in tg._children(t))
 
 
-def gen_types(rng, n):
+def gen_types(rng, n, witness):
+    """-> (types, number of FIXED leading entries (corpus, witnesses, systematic shapes) that always reach every route)"""
     out = [("corpus", s, None) for s in CORPUS]
+    out += [("corpus", s, None) for s in witness["types"]]
+    out += [("shape", x, None) for x in NAMED_STRUCT_SHAPES] + [("shape", "%s.%s" % (pk, x), None) for pk in ("p", "q") for x in NAMED_STRUCT_SHAPES]
+    out += [("shape", def_name(k, m), None) for k in range(len(DEF_KINDS)) for m in DEF_MSETS]
+    out += [("shape", "*" + def_name(k, m), None) for k in range(len(DEF_KINDS)) for m in (2, 3)]
+    out += [("shape", s, None) for s in struct_shapes(rng)]
+    nfixed = len(out)
     g = tg.Gen(rng, home="r", allow_local=False)
-    while len(out) < n:
+    while len(out) < n + nfixed - len(CORPUS):
         try:
             t = g.typ(rng.choice([1, 2, 2, 3, 3, 4]), force=rng.choice([None, None, None, "struct", "func", "iface"]))
         except (IndexError, ValueError):
@@ -108,7 +304,7 @@ def gen_types(rng, n):
         if not tg.valid(t):
             continue
         out.append(("generated", tg.render(t, "r"), t))
-    return out
+    return out, nfixed
 
 
 def strip_chan_parens(t):
@@ -205,7 +401,9 @@ def run(ctx, args):
                     leanchecker=(ctx.tier == "thorough"))
     modeld = build_driver(ctx, "modeld_c15")
     harness = build_go_harness(ctx, "c15")
-    types_ = gen_types(rng, n)
+    witness = load_witnesses()
+    types_, nfixed = gen_types(rng, n, witness)
+    mshapes = main_shapes(witness)
     decls = ["var V%d %s" % (i, t[1]) for i, t in enumerate(types_)]
     stats, samples = {}, []
     evaluations = 0
@@ -214,7 +412,7 @@ def run(ctx, args):
 
     # ------------------------------------------------------------ (1) the real ssa/abi on the type-checked source
     job = {"compiling": tg.MOD, "packages": [{"path": tg.MOD + "/p", "src": package_source("p", [])}, {"path": tg.MOD + "/q", "src": package_source("q", [])},
-                                             {"path": tg.MOD, "src": package_source("r", decls, name="main") + "\nfunc main() {}\n"}]}
+                                             {"path": tg.MOD, "src": package_source("r", decls, name="main", main_extra=mshapes) + "\nfunc main() {}\n"}]}
     jp = os.path.join(ctx.scratch, "job.json")
     json.dump(job, open(jp, "w"))
     p = sh([harness, jp])
@@ -266,7 +464,8 @@ def run(ctx, args):
     from vlib import e2e
     od = os.path.join(ctx.scratch, "oracle")
     calls = "\n".join("\tdump(%d, reflect.TypeOf(&V%d).Elem())" % (i, i) for i in range(len(types_)))
-    main_src = package_source("r", decls, name="main", extra_imports=("encoding/hex", "fmt", "reflect", "strings")) + ORACLE_MAIN + "\nfunc main() {\n" + calls + "\n}\n"
+    main_src = (package_source("r", decls, name="main", extra_imports=("encoding/hex", "fmt", "reflect", "strings"), main_extra=mshapes) + ORACLE_MAIN +
+                "\nfunc main() {\n" + calls + "\n\tz15Run()\n}\n")
     e2e.write_module(od, {"p/p.go": package_source("p", []), "q/q.go": package_source("q", []), "main.go": main_src}, modname=tg.MOD)
     r = e2e.go_run_reference(ctx, od, os.path.join(od, "ref.bin"))
     if r.returncode != 0:
@@ -285,6 +484,8 @@ def run(ctx, args):
                                   "F": [x.split(",") for x in parts[1][2:].split()]}
     if len(oracle) != len(types_):
         raise RuntimeError("oracle printed %d of %d types: %s" % (len(oracle), len(types_), oe[-1000:]))
+    # println goes to stderr: what z15Run() prints under the reference toolchain is the expected text of the compiled program
+    oracle_e2e = [l for l in oe.split("\n") if l.startswith("e2e ")]
     unknown_seen = {}
 
     def report(aspect, i, what, detail, classes=None):
@@ -360,7 +561,8 @@ def run(ctx, args):
             samples.append({"type": types_[i][1], "ssa/abi": d["string"].decode(), "reflect": o["string"].decode(), "kind": KINDS[o["kind"]]})
 
     # ------------------------------------------------------------ (4) tie A: descriptors read back from llgo's IR
-    ir_info = ir_tie(ctx, types_, descs, stats, corr_bad, oracle)
+    ir_info = ir_tie(ctx, types_, descs, stats, corr_bad, oracle, nfixed, mshapes, modeld, envlines, oracle_e2e)
+    spec_fail += ir_info.get("spec_failures", 0)
 
     # ------------------------------------------------------------ verdict
     if corr_bad:
@@ -389,11 +591,11 @@ def run(ctx, args):
                                "input_distribution": stats, "spec_failures_on_real_code": spec_fail, "correspondence_mismatches": len(corr_bad)})
 
 
-def ir_tie(ctx, types_, descs, stats, corr_bad, oracle):
+def ir_tie(ctx, types_, descs, stats, corr_bad, oracle, nfixed, mshapes, modeld, envlines, oracle_e2e):
     from vlib import e2e
     import glob
     quick = ctx.tier == "quick"
-    m = 250 if quick else 3000
+    m = 200 if quick else 3000
     # llgo itself panics ("invalid recv type") on an unnamed struct that embeds a generic instance with methods as soon as
     # its descriptor is needed (known finding emit:struct-embedding-generic-instance, witness built in the thorough tier): keep
     # those shapes out of the package whose IR is read back
@@ -401,14 +603,14 @@ def ir_tie(ctx, types_, descs, stats, corr_bad, oracle):
     # diffname:targ-basic-spelling / targ-fallback-spelling): keep byte/rune/any/aliases out of generic instances here
     def spelled_alias_in_instance(src):
         return re.search(r'\b[GH]\[', src) is not None and re.search(r'\b(byte|rune|any|A[TEI])\b|interface\{\}', src) is not None
-    rest = [i for i in sorted(descs)[len(CORPUS):] if not (types_[i][2] is not None and embeds_generic(types_[i][2])) and not spelled_alias_in_instance(types_[i][1])]
-    stats["ir-tie:skipped-struct-embedding-generic-instance"] = len(descs) - len(CORPUS) - len(rest)
-    pick = [i for i in sorted(descs)[:len(CORPUS)] if not spelled_alias_in_instance(types_[i][1])] + rest[:m]
+    rest = [i for i in sorted(descs)[nfixed:] if not (types_[i][2] is not None and embeds_generic(types_[i][2])) and not spelled_alias_in_instance(types_[i][1])]
+    stats["ir-tie:skipped-struct-embedding-generic-instance"] = len(descs) - nfixed - len(rest)
+    pick = [i for i in sorted(descs)[:nfixed] if not spelled_alias_in_instance(types_[i][1])] + rest[:m]
     decls = ["var V%d %s" % (i, types_[i][1]) for i in pick]
     keep = "var Keep = []any{\n" + "".join("\t&V%d,\n" % i for i in pick) + "}\n"
     d = os.path.join(ctx.scratch, "irprog")
     e2e.write_module(d, {"p/p.go": package_source("p", []), "q/q.go": package_source("q", []),
-                         "main.go": package_source("r", decls, name="main") + keep + "\nfunc main() { println(len(Keep)) }\n"}, modname=tg.MOD)
+                         "main.go": package_source("r", decls, name="main", main_extra=mshapes) + keep + "\nfunc main() { println(len(Keep)); z15Run() }\n"}, modname=tg.MOD)
     e2e.build_llgo(ctx)
     env = e2e.llgo_env(ctx)
     p = sh([ctx.llgo, "build", "-tags", "nogc", "-O0", "-gen-llfiles", "-o", os.path.join(d, "prog0"), "."], cwd=d, env=env)
@@ -420,7 +622,8 @@ def ir_tie(ctx, types_, descs, stats, corr_bad, oracle):
     if not cands:
         ctx.report_broken("tie A: IR of the generated package not found", d)
         return {"ran": False}
-    ir = irdesc.parse(open(max(cands, key=os.path.getmtime)).read())
+    irtext = open(max(cands, key=os.path.getmtime)).read()
+    ir = irdesc.parse(irtext)
     compared, missing = 0, 0
     ir_layout_bad = []
     for i in pick:
@@ -513,4 +716,250 @@ def ir_tie(ctx, types_, descs, stats, corr_bad, oracle):
             ctx.report("emit:struct-embedding-generic-instance:other:" + (wp.stdout + wp.stderr)[:80], "llgo cannot build the struct-embedding-generic-instance witness", {"llgo": (wp.stdout + wp.stderr)[:2000]})
     ctx.log("tie A: %d descriptors of %d types read back from llgo's IR (%d symbols in the module, %d not emitted)" % (compared, len(pick), len(ir), missing))
     stats["ir-descriptors-compared"] = compared
-    return {"ran": True, "descriptors_compared": compared, "symbols_in_module": len(ir), "types_requested": len(pick), "not_emitted": missing}
+    info = {"ran": True, "descriptors_compared": compared, "symbols_in_module": len(ir), "types_requested": len(pick), "not_emitted": missing}
+    # ---- the run-time readers on the emitted descriptors (native), and the compiled program itself
+    rt_info = runtime_tie(ctx, types_, descs, oracle, pick, ir, irtext, modeld, envlines, stats, corr_bad)
+    e2e_info = e2e_tie(ctx, os.path.join(d, "prog0"), oracle_e2e, stats)
+    info["runtime_readers"] = rt_info
+    info["e2e"] = e2e_info
+    info["descriptors_compared"] += rt_info.get("descriptors_loaded", 0) + e2e_info.get("lines_compared", 0)
+    info["spec_failures"] = rt_info.get("spec_failures", 0) + e2e_info.get("spec_failures", 0)
+    return info
+
+
+RT_FILES = ["map.go", "alg.go", "hash64.go", "z_map.go", "type.go", "errors.go", "z_face.go", "z_type.go",
+            "mbarrier.go", "z_error.go", "z_slice.go", "z_string.go", "utf8.go", "stubs.go"]
+
+
+def e2e_tie(ctx, prog, oracle_e2e, stats):
+    """the compiled program calls value- and pointer-receiver methods of defined types of every kind through interfaces (static
+    conversion, type assertion, method value, type switch); its println text must be the reference toolchain's, line by line"""
+    from vlib import e2e
+    so, se, rc = e2e.run_prog(prog, timeout=120, mem_gib=4)
+    got = [l for l in se.split("\n") if l.startswith("e2e ")]
+    fails = 0
+    stats["e2e:lines-expected"] = len(oracle_e2e)
+    stats["e2e:lines-printed"] = len(got)
+    seen = set()
+    for k, want in enumerate(oracle_e2e):
+        have = got[k] if k < len(got) else None
+        if have == want:
+            continue
+        typ = want.split(" ")[1] if len(want.split(" ")) > 1 else "?"
+        if typ in seen:
+            continue
+        seen.add(typ)
+        fails += 1
+        if have is None:
+            what = "the compiled program stopped (exit status %s) before printing the line the reference toolchain prints" % rc
+        else:
+            what = "a method called through an interface (or a type assertion) gives another result than under the reference toolchain"
+        if len(seen) <= 4:
+            ctx.report("e2e:%s:%s" % (typ, " ".join(want.split(" ")[2:-1])[:40]), what,
+                       {"expected_line": want, "llgo_line": have, "line_number": k, "exit_status": rc, "stderr_tail": se[-600:] if have is None else "",
+                        "program": "package main of the generated universe (checks/c15.py main_shapes + corpus/C15/witnesses.json), func z15Run"})
+        if have is None:
+            break
+    if not oracle_e2e:
+        ctx.report_broken("e2e: the reference build printed no e2e line", "")
+    ctx.log("e2e: %d of %d lines of z15Run() agree with the reference toolchain (exit status %s)" % (sum(1 for a, b in zip(got, oracle_e2e) if a == b), len(oracle_e2e), rc))
+    return {"lines_compared": len(oracle_e2e), "spec_failures": fails, "exit_status": rc}
+
+
+def runtime_tie(ctx, types_, descs, oracle, pick, ir, irtext, modeld, envlines, stats, corr_bad):
+    """What the RUN-TIME LIBRARY reads out of the emitted descriptors.  Every descriptor constant of the module is rebuilt in native
+    memory with the layout the IR declares (struct{ <header type named in the IR>; UncommonType; [n]Method }) and handed to the real
+    runtime/abi readers (Uncommon, NumMethod, ExportedMethods, Methods, StructType, IsExported) and to the real
+    runtime/internal/runtime DirectIfaceData / IfacePtrData (native copy).  Spec: the reference toolchain's reflect on the same source
+    (NumMethod, Method(i).Name, PkgPath, Field(i).PkgPath) and the receiver-word rule; model: Model/TypeDesc.lean."""
+    from vlib import native, irlayout
+    H = os.path.join(VERIF, "harness", "c15", "native")
+    nat = native.make_native(ctx, RT_FILES, {"zz_support.go": native.RT_SUPPORT, "zz_c15.go": open(os.path.join(H, "rt_extra.go.txt")).read()},
+                             {"main.go": open(os.path.join(H, "main.go.txt")).read()}, name="native-c15")
+    lay = irlayout.layouts(irtext)
+    sizes = irlayout.type_sizes(irtext)
+
+    def hx(b):
+        return b.hex() if b else "-"
+    jobs, meta = [], {}
+
+    def add(idx, sym, i):
+        e, L = ir[sym], lay.get(sym)
+        if L is None:
+            return
+        u = e["uncommon"]
+        if (u is not None) != L["has_uncommon"] or (u is not None and (None in [m[0] for m in u["methods"]] or u["pkgpath"] is None)) or e["str"] is None:
+            corr_bad.append((sym, sym, "IR reader: descriptor constant of %s not understood (uncommon %s, layout %s)" % (sym, u is not None, L)))
+            return
+        st = None
+        if e["kind"] == 25 and e["fields"] is not None and e["pkgpath"] is not None and all(f[0] is not None for f in e["fields"]):
+            st = {"pkgpath": hx(e["pkgpath"]), "fields": [{"name": hx(f[0]), "emb": f[4]} for f in e["fields"]]}
+        jobs.append({"idx": idx, "header": L["header"], "kindbyte": e["kindbyte"], "tflag": e["tflag"], "str": hx(e["str"]),
+                     "unc": None if u is None else {"pkgpath": hx(u["pkgpath"]), "mcount": u["mcount"], "xcount": u["xcount"], "moff": L["moff"] or 0, "methods": [hx(m[0]) for m in u["methods"]]},
+                     "struct": st})
+        meta[idx] = (sym, i)
+    used = set()
+    for i in pick:
+        sym = descs[i]["sym"]
+        if sym in ir:
+            add(i, sym, i)
+            used.add(sym)
+    n = 0
+    for sym in ir:
+        if sym not in used:
+            add(10 ** 7 + n, sym, None)
+            n += 1
+    jp = os.path.join(ctx.scratch, "rtjob.json")
+    json.dump({"descs": jobs}, open(jp, "w"))
+    p = sh([nat, jp])
+    if p.returncode != 0:
+        ctx.report_broken("native descriptor loader failed", (p.stdout + p.stderr)[-2000:])
+        return {"ran": False}
+    hsize, probe, dird, res = {}, {}, {}, {}
+    for line in p.stdout.split("\n"):
+        f = line.split(" ")
+        if f[0] == "hsize":
+            hsize[f[1]] = (int(f[2]), int(f[3]))
+        elif f[0] == "probe":
+            probe[int(f[1])] = int(f[2])
+        elif f[0] == "dird":
+            dird[(int(f[1]), f[2] == "1")] = (f[3] == "1", int(f[4]))
+        elif f[0] == "desc":
+            res[int(f[1])] = {"readoff": int(f[2]), "layoff": int(f[3]), "pkgpath": None if f[4] == "?" else unhexs(f[4]), "mcount": int(f[5]), "xcount": int(f[6]),
+                              "nummethod": int(f[7]), "all": None if f[8] == "A:?" else [unhexs(x) for x in f[8][2:].split(",") if x],
+                              "exp": None if f[9] == "X:?" else [unhexs(x) for x in f[9][2:].split(",") if x],
+                              "spkg": None if f[10] == "S:~" else unhexs(f[10][2:]), "fpkg": [unhexs(x) for x in f[11][2:].split(",") if x],
+                              "direct": f[12] == "R:1", "recv": int(f[13])}
+        elif f[0] == "err":
+            sym, i = meta[int(f[1])]
+            corr_bad.append((sym, sym, "native loader: " + " ".join(f[2:])))
+
+    # ------------------------------------------------------------ the model (Model/TypeDesc.lean) against both sites
+    shape_is = [i for i in pick if descs[i]["sym"] in ir]
+    mlines = envlines + ["hdr %d" % k for k in range(27)] + ["dird %d %d" % (k, b) for k in range(27) for b in (0, 1)] + ["shape " + descs[i]["term"] for i in shape_is]
+    mout, rc, err = run_lines([modeld], mlines)
+    if len(mout) != len(mlines):
+        raise RuntimeError("model driver died %d/%d %s" % (len(mout), len(mlines), err[-2000:]))
+    mout = mout[len(envlines):]
+    mhdr = {k: mout[k].split(" ") for k in range(27)}
+    mdird = {(k, b == 1): mout[27 + 2 * k + b].split(" ") for k in range(27) for b in (0, 1)}
+    mshape = {i: mout[27 + 54 + j].split(" ") for j, i in enumerate(shape_is)}
+    for k in range(27):
+        eh, rh, ew, rw = mhdr[k][0], mhdr[k][1], int(mhdr[k][2]), int(mhdr[k][3])
+        if rh not in hsize or hsize[rh][0] != probe.get(k):
+            corr_bad.append(("kind %d" % k, KINDS[k], "(*abi.Type).Uncommon() looks %s bytes (native layout) into a descriptor of kind %s; the model's readHeader says behind a %s = %s bytes"
+                             % (probe.get(k), KINDS[k], rh, hsize.get(rh, ("?",))[0])))
+        if rh in hsize and hsize[rh][0] + 8 * hsize[rh][1] != 8 * rw:
+            corr_bad.append(("kind %d" % k, KINDS[k], "runtime/abi.%s has %d bytes + %d func values; the model's Header.words says %d words" % (rh, hsize[rh][0], hsize[rh][1], rw)))
+        if eh in sizes and sizes[eh][0] != 8 * ew:
+            corr_bad.append(("kind %d" % k, KINDS[k], "the IR declares %s with %d bytes; the model's Header.words says %d words" % (eh, sizes[eh][0], ew)))
+        for b in (False, True):
+            if (mdird[(k, b)][0] == "1") != dird[(k, b)][0]:
+                corr_bad.append(("kind %d direct %s" % (k, b), KINDS[k], "DirectIfaceData(kind %s, KindDirectIface %s) = %s on the real code, %s in the model" % (KINDS[k], b, dird[(k, b)][0], mdird[(k, b)][0])))
+    ut = sizes.get("UncommonType", (None,))[0]
+    for sym, e in ir.items():
+        L = lay.get(sym)
+        if L is None:
+            continue
+        eh, ew = mhdr[e["kind"]][0], int(mhdr[e["kind"]][2])
+        if e["tflag"] & 32 and e["kind"] == 25:
+            pass            # closure struct: an ordinary StructType
+        if L["header"] != eh:
+            corr_bad.append((sym, sym, "the emitted descriptor of kind %s starts with a runtime/abi.%s; the model's emitHeader (RuntimeName) says %s" % (KINDS[e["kind"]], L["header"], eh)))
+        elif L["has_uncommon"] and (L["uncommon_offset"] != 8 * ew or L["moff"] != ut or L["methods_offset"] - L["uncommon_offset"] != L["moff"]):
+            corr_bad.append((sym, sym, "emitted layout %s: the model puts the uncommon part at %d, Moff must be sizeof(UncommonType) = %s" % (L, 8 * ew, ut)))
+    for i in shape_is:
+        dd, e, L = descs[i], ir[descs[i]["sym"]], lay.get(descs[i]["sym"])
+        if dd["fbv"] or L is None or len(mshape[i]) != 3:
+            continue        # a func value inside: the emitted type is the lowered one (closure structs)
+        md, mh, msp = mshape[i]
+        if (md == "1") != bool(e["kindbyte"] & 32):
+            corr_bad.append((i, types_[i][1], "KindDirectIface emitted %s, the model's directIfaceType says %s" % (bool(e["kindbyte"] & 32), md)))
+        if mh != L["header"]:
+            corr_bad.append((i, types_[i][1], "header emitted %s, the model's RuntimeName says %s" % (L["header"], mh)))
+        if e["kind"] == 25 and (None if msp == "~" else unhexs(msp)) != e["pkgpath"]:
+            corr_bad.append((i, types_[i][1], "StructType.PkgPath_ emitted %r, the model's structPkgPath (first field with a non-exported name, embedded or not) says %r" % (e["pkgpath"], msp)))
+        stats["rt-tie:shape-vs-model"] = stats.get("rt-tie:shape-vs-model", 0) + 1
+
+    # ------------------------------------------------------------ the spec on the real code
+    fails = 0
+    seen = ctx.coverage.setdefault("_ir_seen", {})
+
+    def rt_report(aspect, label, what, detail, known=None):
+        nonlocal fails
+        fails += 1
+        if known is not None and ctx.match_known(known) is not None:
+            ctx.report(known, what, detail)
+            return
+        seen[aspect] = seen.get(aspect, 0) + 1
+        if seen[aspect] <= 3:
+            ctx.report("reflect-rt:%s:%s" % (aspect, label[:100]), what, detail)
+    loaded = 0
+    for idx, r in sorted(res.items()):
+        sym, i = meta[idx]
+        e = ir[sym]
+        label = types_[i][1] if i is not None else "symbol " + sym
+        base = {"type": types_[i][1] if i is not None else None, "symbol": sym, "kind": KINDS[e["kind"]], "kind_byte": e["kindbyte"], "header_in_ir": lay[sym]["header"]}
+        loaded += 1
+        stats["rt-tie:kind:" + KINDS[e["kind"]]] = stats.get("rt-tie:kind:" + KINDS[e["kind"]], 0) + 1
+        # (a) the receiver word of an interface method call
+        direct = bool(e["kindbyte"] & 32)
+        want = 1 if direct and e["kind"] != 22 else 0
+        if r["recv"] != want:
+            rt_report("receiver", label, "IfacePtrData hands a method called through an interface %s, but the compiler stored the value %s" %
+                      (["the data word itself", "the address of a copy of the data word", "something else"][r["recv"]],
+                       "IN the data word (KindDirectIface) and the one-word receiver must point TO the value" if direct else "behind the data word"),
+                      dict(base, DirectIfaceData=r["direct"], receiver_class=r["recv"], expected_class=want))
+        if direct:
+            stats["rt-tie:direct-iface:" + KINDS[e["kind"]]] = stats.get("rt-tie:direct-iface:" + KINDS[e["kind"]], 0) + 1
+        # (b) the uncommon part
+        u = e["uncommon"]
+        o = oracle[i] if i is not None else None
+        if u is not None:
+            emitted = [m[0] for m in u["methods"]]
+            if r["readoff"] != r["layoff"]:
+                rt_report("uncommon", label, "(*abi.Type).Uncommon() looks %d bytes into the descriptor, but the compiler put the UncommonType behind the %s at byte %d (native layout; in the IR at byte %d): "
+                          "NumMethod() = %d where the emitted Xcount is %d%s" % (r["readoff"], lay[sym]["header"], r["layoff"], lay[sym]["uncommon_offset"], r["nummethod"], u["xcount"],
+                                                                                 "" if o is None else " and reflect.Type.NumMethod() is %d" % o["nmethod"]),
+                          dict(base, emitted_methods=str(emitted), Mcount_seen=r["mcount"], Xcount_seen=r["xcount"]))
+                continue
+            if r["all"] != emitted or r["mcount"] != u["mcount"] or r["xcount"] != u["xcount"] or r["pkgpath"] != u["pkgpath"]:
+                rt_report("uncommon-content", label, "Uncommon()/Methods() do not return what the compiler emitted", dict(base, emitted=str(u), read=str(r)))
+                continue
+        if o is not None and o["kind"] != 20:
+            gonames = [m[0] for m in o["M"]]
+            if r["nummethod"] != o["nmethod"]:
+                rt_report("nummethod", label, "(*abi.Type).NumMethod() on the emitted descriptor is %d, reflect.Type.NumMethod() is %d" % (r["nummethod"], o["nmethod"]), dict(base, go=str(gonames)))
+            elif (r["exp"] or []) != gonames:
+                cls = "reflect:methods:exported-not-a-prefix" if sorted(x for x in (r["all"] or []) if b"." not in x) == gonames else None
+                rt_report("methods", label, "ExportedMethods() of the emitted descriptor are not the methods reflect reports", dict(base, llgo=str(r["exp"]), go=str(gonames)), known=cls)
+            if u is not None and o["name"] != b"" and r["pkgpath"] != o["pkgpath"]:
+                cls = "reflect:pkgpath:main-package-path" if o["pkgpath"] == b"main" and r["pkgpath"] == tg.MOD.encode() else None
+                rt_report("pkgpath", label, "Uncommon().PkgPath_ differs from reflect.Type.PkgPath()", dict(base, llgo=str(r["pkgpath"]), go=str(o["pkgpath"])), known=cls)
+            # (c) visibility of struct fields: StructField.PkgPath as reflect derives it from StructType.PkgPath_
+            if o["kind"] == 25 and r["spkg"] is not None and e["fields"] is not None and e["tflag"] & 32 == 0:
+                gof = [unhexs(f[3]) for f in o["F"]]
+                names = [f[0] for f in e["fields"]]
+                stats["rt-tie:struct-field-visibility"] = stats.get("rt-tie:struct-field-visibility", 0) + 1
+                if any(fl[0] is not None and not (fl[0][:1].isupper() and fl[0][:1].isascii()) and fl[4] for fl in e["fields"]) and \
+                        not any((not fl[4]) and fl[0] is not None and not fl[0][:1].isupper() for fl in e["fields"]):
+                    stats["rt-tie:struct-only-embedded-unexported"] = stats.get("rt-tie:struct-only-embedded-unexported", 0) + 1
+                if len(gof) != len(r["fpkg"]):
+                    rt_report("fieldpkgpath", label, "field count differs", dict(base, llgo=str(r["fpkg"]), go=str(gof)))
+                else:
+                    bad = [(k, names[k], r["fpkg"][k], gof[k]) for k in range(len(gof)) if r["fpkg"][k] != gof[k]]
+                    main_only = [b for b in bad if b[3] == b"main" and b[2] == tg.MOD.encode()]
+                    nonascii = [b for b in bad if b not in main_only and b[3] == b"" and b[1][:1] >= b"\x80"]
+                    other = [b for b in bad if b not in main_only and b not in nonascii]
+                    det = dict(base, StructType_PkgPath=str(r["spkg"]), fields=str([(nm.decode("utf-8", "replace"), "llgo PkgPath %r" % a.decode(), "go PkgPath %r" % b_.decode()) for _, nm, a, b_ in bad]))
+                    if other:
+                        rt_report("fieldpkgpath", label, "reflect's StructField.PkgPath / IsExported() as derived from the emitted StructType.PkgPath_ (%r) differ from the reference toolchain's: %s" %
+                                  (r["spkg"].decode(), ", ".join("field %s: llgo PkgPath %r (IsExported %s), Go %r (IsExported %s)" % (nm.decode("utf-8", "replace"), a.decode(), a == b"", b_.decode(), b_ == b"") for _, nm, a, b_ in other)), det)
+                    if nonascii:
+                        rt_report("fieldpkgpath-nonascii", label, "abi.IsExported looks at one ASCII byte: an exported field whose name starts with a non-ASCII upper-case letter gets the struct's PkgPath_", det,
+                                  known="reflect:fieldpkgpath:non-ascii-exported-name")
+                    if main_only:
+                        rt_report("fieldpkgpath-main", label, "non-exported fields of a struct written in package main: PkgPath is the import path of the main package, Go says main", det,
+                                  known="reflect:fieldpkgpath:main-package-path")
+    ctx.log("run-time readers: %d emitted descriptors loaded natively (%d of generated types), %d spec failures" % (loaded, sum(1 for x in meta.values() if x[1] is not None), fails))
+    return {"ran": True, "descriptors_loaded": loaded, "spec_failures": fails, "header_sizes_in_ir": {k: v[0] for k, v in sizes.items()}}
